@@ -129,8 +129,14 @@ def run_path(c, case, variant, global_repo, allow_fault, allow_replace, fault_ki
     mm.register_scope_providers({'*.*': Prov()})
 
     class Replacement:
+        """replacement value; falsy (but not None) when the path says so"""
+        falsy = False
+
         def __init__(self, of):
             self.of = of
+
+        def __bool__(self):
+            return not self.falsy
 
     def proc(rule):
         def p(obj):
@@ -150,13 +156,21 @@ def run_path(c, case, variant, global_repo, allow_fault, allow_replace, fault_ki
             point('processor')
             if allow_replace and rule in ('Leaf', 'Item') and type(obj).__name__ == 'Leaf' \
                     and c.branch(z3.Bool('repl_%d' % len(log))):
+                if not replaced:
+                    # one selector per load: the replacement values are falsy objects
+                    Replacement.falsy = c.branch(z3.Bool('replacements_falsy'))
                 r = Replacement((rule, getattr(obj, 'name', None)))
                 replaced.append((rule, id(obj), r))
                 return r
             return None
         return p
+    def match_proc(value):
+        # processor of a match rule: runs during object-graph construction,
+        # i.e. inside objects (user-class ones too) that are still being built
+        point('match-processor')
+        return value
     mm.register_obj_processors({'Box': proc('Box'), 'Leaf': proc('Leaf'), 'Item': proc('Item'),
-                                'Model': proc('Model')})
+                                'Model': proc('Model'), 'ID': match_proc})
 
     def model_proc(model, metamodel):
         log.append(('modelproc', None, None, None, (), id(model)))
